@@ -37,7 +37,10 @@ tvars == <<l, viols, drift, dkind, ntraces, presented, mass>>
 Ev == Trace[l]
 IsEvent(e) == l <= Len(Trace) /\ Trace[l].ev = e /\ l' = l + 1
 
-NoteViol(k)  == viols' = IF k # "" /\ Len(viols) < 12 THEN Append(viols, <<l, k>>) ELSE viols
+\* viols: the first line of every kind (per cipher class where the event names one) of property-layer failure
+NoteViolC(k, c) == viols' = IF k # "" /\ ~(\E i \in 1..Len(viols) : viols[i][2] = k /\ viols[i][3] = c)
+                          THEN Append(viols, <<l, k, c>>) ELSE viols
+NoteViol(k)  == NoteViolC(k, 0)
 NoteDrift(k) == /\ drift' = IF drift = 0 /\ k # "" THEN l ELSE drift
                 /\ dkind' = IF drift = 0 /\ k # "" THEN k ELSE dkind
 NoViol  == UNCHANGED viols
@@ -114,10 +117,10 @@ TrResp ==
                    ELSE salts
        /\ conn' = [conn EXCEPT ![c] = [@ EXCEPT !.ph = IF conn[c].st = "OK" THEN "served" ELSE @, !.resp = Ev.t,
                                                 !.wrote = TRUE]]
-       /\ NoteViol(IF conn[c].st # "OK" \/ m = 0 THEN "bytes-written-to-unauthenticated-client"
-                   ELSE IF ~new THEN "response-salt-not-fresh"
-                   ELSE IF SaltSize[cls] >= 20 /\ ~Ev.mark THEN "response-salt-not-recognised"
-                   ELSE "")
+       /\ NoteViolC(IF conn[c].st # "OK" \/ m = 0 THEN "bytes-written-to-unauthenticated-client"
+                    ELSE IF ~new THEN "response-salt-not-fresh"
+                    ELSE IF SaltSize[cls] >= 20 /\ ~Ev.mark THEN "response-salt-not-recognised"
+                    ELSE "", cls)
        /\ NoteDrift(IF conn[c].ph # "authed" THEN "resp-phase" ELSE "")
   /\ UNCHANGED <<cache, seen, tr, ntraces, presented, mass>>
 
@@ -136,9 +139,9 @@ TrEnd ==
 TrMass ==
   /\ IsEvent("MassResp")
   /\ mass' = IF Ev.t = mass + 1 THEN mass + 1 ELSE mass
-  /\ NoteViol(IF Ev.t # mass + 1 THEN "response-salt-not-fresh"
-              ELSE IF SaltSize[Ev.cls] >= 20 /\ ~Ev.mark THEN "response-salt-not-recognised"
-              ELSE "")
+  /\ NoteViolC(IF Ev.t # mass + 1 THEN "response-salt-not-fresh"
+               ELSE IF SaltSize[Ev.cls] >= 20 /\ ~Ev.mark THEN "response-salt-not-recognised"
+               ELSE "", Ev.cls)
   /\ UNCHANGED <<vars, ntraces, presented>> /\ NoDrift
 
 \* remarks of the driver (e.g. an accepted recording carries no request)
